@@ -729,6 +729,12 @@ def classify_compound(a, out):
     return f"groups={min(len(big), 3)}/{'effective' if eff else 'real'}/pathlen={min(deep, 4)}/{'one-sequence' if seqs else 'mixed-sequence'}"
 
 
+def _c16():
+    import props.c16 as c16
+
+    return c16
+
+
 CORRS = [
     Corr("gen.xsd_sites", gen_sites, impl_sites, canon=canon_sites, classify=classify_particle, describe="SchemaParser+SchemaMapper element sites and paths vs model"),
     Corr("gen.calc_paths", stage_gen("calc"), stage_impl("calc"), classify=classify_sites, describe="CalculateAttributePaths.process vs model"),
@@ -752,6 +758,9 @@ CORRS = [
          classify=classify_sanitize, describe="SanitizeAttributesDefaultValue.process_attribute on constructed attrs vs model"),
     Corr("gen.attr_fields", gen_attr_fields, impl_attr_fields,
          classify=classify_decls, describe="use/default/fixed: whole real pipeline + stand-in renderer: presence, init and default of the dataclass field of every declaration vs model"),
+    Corr("gen.enum_default", lambda rng, tier: _c16().gen_enum_default(rng, tier), lambda a: _c16().impl_enum_default(a),
+         classify=lambda a, o: _c16().classify_enum_default(a, o),
+         describe="xs:enumeration / DTD enumerations whose values collide after slugging: is_valid_enum_type placeholder and the member values field_default_enum / constant_name resolve it to vs model (shared with C16)"),
     Corr("gen.override", gen_override, impl_override,
          classify=classify_override, describe="ValidateAttributesOverrides.validate_override on constructed child/parent attrs vs model"),
     Corr("gen.restrict_attrs", gen_restrict, impl_restrict_attrs,
@@ -1153,6 +1162,18 @@ def _oracle_attr_docs_failures(a):
                 if want is None:
                     want = d["default"] if d["default"] is not None else d["fixed"]
                 got = getattr(obj, fields[f"d{i}"]) if f"d{i}" in fields else None
+                if d.get("enum"):
+                    # an enumeration-typed field holds the member (or the members, for a list) of that value
+                    import enum as _enum
+
+                    items = list(got) if isinstance(got, (list, tuple)) else [got]
+                    if got is not None and not all(isinstance(x, _enum.Enum) for x in items):
+                        yield f"document {doc}: attribute d{i} ({d}) is held as {got!r}, not as member(s) of its enumeration (retyped)"
+                        continue
+                    if isinstance(got, (list, tuple)):
+                        got = " ".join(x.value if isinstance(x, _enum.Enum) else str(x) for x in got) if got else None
+                    elif isinstance(got, _enum.Enum):
+                        got = got.value
                 if got != want:
                     yield f"document {doc}: attribute d{i} ({d}) read as {got!r}, schema-normalized value {want!r}"
                     continue
@@ -1222,6 +1243,12 @@ def gen_attr_docs(rng, tier):
         decls = []
         for _ in range(rng.randint(1, 7)):
             d = G.gen_decl(rng)
+            if d.get("enum") and d["kind"] == "attribute" and rng.random() < 0.3:
+                # a list of the enumeration: default / fixed is a token list of members
+                d["enum_list"] = True
+                for k in ("default", "fixed"):
+                    if d[k] is not None:
+                        d[k] = " ".join(rng.sample(d["enum"], rng.randint(1, min(3, len(d["enum"])))))
             if G.decl_valid(d) and not (d["kind"] == "element" and d["type"] is None):
                 if d["kind"] == "element" and d["fixed"] is None and d["default"] is None and rng.random() < 0.3:
                     d["nillable"] = True
@@ -1236,12 +1263,16 @@ def gen_attr_docs(rng, tier):
                     if d["use"] == "prohibited":
                         continue
                     if d["use"] == "required" or rng.random() < 0.5:
-                        attrs.append([i, d["fixed"] if d["fixed"] is not None else rng.choice(["v1", "dv", "other value"])])
+                        if d.get("enum_list"):
+                            free = " ".join(rng.sample(d["enum"], rng.randint(1, len(d["enum"]))))
+                        else:
+                            free = rng.choice(d["enum"]) if d.get("enum") else rng.choice(["v1", "dv", "other value"])
+                        attrs.append([i, d["fixed"] if d["fixed"] is not None else free])
                 else:
                     hi = d["min"] + 2 if d["max"] == MAXSIZE else d["max"]
                     k = rng.randint(d["min"], max(d["min"], hi))
                     val = d["fixed"] if d["fixed"] is not None else None
-                    vals = [val if val is not None else f"e{j}" for j in range(k)]
+                    vals = [val if val is not None else (rng.choice(d["enum"]) if d.get("enum") else f"e{j}") for j in range(k)]
                     if d.get("nillable"):
                         vals = [None if rng.random() < 0.4 else ("" if rng.random() < 0.15 else v) for v in vals]
                     elems.append([i, vals])
